@@ -101,6 +101,16 @@ ben("B16", ["C16", "C14"], "match() keeps compiled patterns in a correctly keyed
     (P + "function_extensions/match.py", "class Match(FilterFunction):\n", "_LOCAL = threading.local()\n\n\nclass Match(FilterFunction):\n"),
     (P + "function_extensions/match.py", "            return bool(re.fullmatch(map_re(pattern), string))\n", "            memo = _LOCAL.__dict__.setdefault(\"memo\", {})\n            rx = memo.get(pattern)\n            if rx is None:\n                if len(memo) > 64:\n                    memo.clear()\n                rx = memo[pattern] = re.compile(map_re(pattern))\n            return bool(rx.fullmatch(string))\n"),
 ])
+ben("B18", ["C17", "C18"], "the nondeterministic walk draws from a private random.Random instance seeded from random.getrandbits(64) at each evaluation", [
+    (P + "segments.py", "        frontier: List[Deque[JSONPathNode]] = _nondeterministic_runs(root)\n\n        while frontier:\n            idx = random.randrange(len(frontier))  # noqa: S311\n", "        rng = random.Random(random.getrandbits(64))  # noqa: S311\n        frontier: List[Deque[JSONPathNode]] = _nondeterministic_runs(root)\n\n        while frontier:\n            idx = rng.randrange(len(frontier))\n"),
+])
+ben("B19", ["C17", "C18"], "the nondeterministic walk draws from a private random.Random() seeded by the system at each evaluation", [
+    (P + "segments.py", "        frontier: List[Deque[JSONPathNode]] = _nondeterministic_runs(root)\n\n        while frontier:\n            idx = random.randrange(len(frontier))  # noqa: S311\n", "        rng = random.Random()  # noqa: S311\n        frontier: List[Deque[JSONPathNode]] = _nondeterministic_runs(root)\n\n        while frontier:\n            idx = rng.randrange(len(frontier))\n"),
+])
+ben("B20", ["C17"], "member shuffles use a module-level random.SystemRandom() instance created on first use", [
+    (P + "selectors.py", "import random\n", "import random\n\n_RNG = None\n\n\ndef _rng():  # noqa: ANN202\n    global _RNG  # noqa: PLW0603\n    if _RNG is None:\n        _RNG = random.SystemRandom()\n    return _RNG\n"),
+    (P + "selectors.py", ALL_ + "                random.shuffle(_members)\n", "                _rng().shuffle(_members)\n"),
+])
 
 
 def apply_edits(root: str, edits: List[Edit]) -> None:
